@@ -331,7 +331,7 @@ def rule_merge_dedup(ctx: Ctx, rule="R-C18-7"):
     S = fn.args.args[0].arg
     for attr in ("exact_editions", "variation_editions"):
         st = [s_ for s_ in stmts_local(fn.body) if isinstance(s_, ast.Assign) and norm(s_.targets[0]) == f"{S}.{attr}"]
-        last = max(st, key=lambda x: x.lineno) if st else None
+        last = st[-1] if st else None  # document order (inlined code shares the line of the call it replaced)
         ok = False
         if last is not None:
             v = last.value
